@@ -1,5 +1,6 @@
 #![allow(dead_code, unused_imports)]
 mod c01x;
+mod c02x;
 mod c06;
 mod c07;
 mod c08;
@@ -60,6 +61,9 @@ fn plan(prop: &str, tier: &str, seed: u64) -> Plan {
         }
         if p == "C18" {
             batches.insert(0, c18x::batch());
+        }
+        if p == "C02" {
+            batches.push(c02x::batch(tier, seed));
         }
         return Plan {
             batches,
@@ -244,7 +248,7 @@ fn main() {
                 }
             }
             if rep.kind != "engine" {
-                let out = c06::replay(&rep.kind, rep.seed).or_else(|| c07::replay(&rep.kind, rep.seed)).or_else(|| c14::replay(&rep.kind, rep.seed)).or_else(|| c17::replay(&rep.kind, rep.seed)).or_else(|| c08::replay(&rep.kind, rep.seed)).or_else(|| c18x::replay(&rep.kind, rep.seed));
+                let out = c06::replay(&rep.kind, rep.seed).or_else(|| c07::replay(&rep.kind, rep.seed)).or_else(|| c14::replay(&rep.kind, rep.seed)).or_else(|| c17::replay(&rep.kind, rep.seed)).or_else(|| c08::replay(&rep.kind, rep.seed)).or_else(|| c18x::replay(&rep.kind, rep.seed)).or_else(|| c02x::replay(&rep.kind, rep.seed));
                 match out {
                     Some(o) => match o.violation {
                         Some((v, _)) => {
